@@ -328,7 +328,19 @@ func runC07(c *Ctx) {
 	// ---------- R5: wire field -> sink
 	if hb := c.mustMethod("C07.R5", "wire", "Session", "handleBind"); hb != nil {
 		R.Analysed(fname(hb))
+		// the message may be decoded by a helper that hands the fields back in a struct
+		dec := hb
 		gs := getStrings(hb)
+		if len(gs) == 0 {
+			for _, ci := range core.Calls(hb) {
+				if h := core.StaticCallee(ci); h != nil && c.P.InPkg(h, "wire") && h.Blocks != nil && len(getStrings(h)) == 2 {
+					dec, gs = h, getStrings(h)
+					R.Analysed(fname(h))
+				}
+			}
+		}
+		_ = dec
+		res := func(v ssa.Value) ssa.Value { r, _ := c.throughCarrier(v); return r }
 		if len(gs) != 2 {
 			R.Fail("C07.R5", "Bind:fields", c.atFn(hb), "Bind reads the portal name and the statement name", sprintf("%d GetString calls", len(gs)))
 		} else {
@@ -336,21 +348,21 @@ func runC07(c *Ctx) {
 			var got *ssa.Call
 			for _, ci := range callsIn(hb, cacheInvoke("StatementCache", "Get")) {
 				got = ci.(*ssa.Call)
-				R.Check(got.Call.Args[1] == stmtName, "C07.R5", "Bind:statement-name", c.at(ci), "Bind resolves the statement named by the message's second string", "Get(name = 2nd string)", "Statements.Get is not called with the message's statement name")
+				R.Check(res(got.Call.Args[1]) == stmtName, "C07.R5", "Bind:statement-name", c.at(ci), "Bind resolves the statement named by the message's second string", "Get(name = 2nd string)", "Statements.Get is not called with the message's statement name")
 			}
 			for _, ci := range callsIn(hb, cacheInvoke("PortalCache", "Bind")) {
 				a := ci.Common().Args
 				okStmt := got != nil && a[2] == resultOf(got, 0)
-				R.Check(a[1] == portalName && okStmt, "C07.R5", "Bind:portal-name-and-statement", c.at(ci), "the portal is created under the message's first string and attached to the statement just resolved", "Bind(name = 1st string, stmt = Get result)", "Portals.Bind does not receive the message's portal name and the resolved statement")
+				R.Check(res(a[1]) == portalName && okStmt, "C07.R5", "Bind:portal-name-and-statement", c.at(ci), "the portal is created under the message's first string and attached to the statement just resolved", "Bind(name = 1st string, stmt = Get result)", "Portals.Bind does not receive the message's portal name and the resolved statement")
 				rp, rc := c.bindDecoders()
 				okP, okF := false, false
-				if ex, ok := a[3].(*ssa.Extract); ok {
-					if call, ok := ex.Tuple.(*ssa.Call); ok && core.StaticCallee(call) == rp && ex.Index == 0 {
+				if ex, ok := res(a[3]).(*ssa.Extract); ok {
+					if call, ok := ex.Tuple.(*ssa.Call); ok && c.tailTarget(core.StaticCallee(call), 2) == rp && ex.Index == 0 {
 						okP = true
 					}
 				}
-				if ex, ok := a[4].(*ssa.Extract); ok {
-					if call, ok := ex.Tuple.(*ssa.Call); ok && core.StaticCallee(call) == rc && ex.Index == 0 {
+				if ex, ok := res(a[4]).(*ssa.Extract); ok {
+					if call, ok := ex.Tuple.(*ssa.Call); ok && c.tailTarget(core.StaticCallee(call), 2) == rc && ex.Index == 0 {
 						okF = true
 					}
 				}
